@@ -145,6 +145,8 @@ def bind_roles(prog):
     R['pit', 'current_id'] = util.bind_role(pit, 'current_id', type_rx=r'^%s$' % uuid, origin_rx=r'^phi\(\S+→BackupMetadata\.id \| \S+→BackupMetadata\.id\)$')
     R['pit', 'base'] = util.bind_role(pit, 'base_slot', type_rx=r'^core::option::Option<&%s>$' % meta,
                                       origin_rx=r'^phi\(option::Option::None\{\} \| option::Option::Some\{.*\}\)$')
+    # .. and the base itself: the backup whose archive is verified directly (not through the loop over the hops)
+    R['pit', 'base_ref'] = util.bind_role(pit, 'full_backup', type_rx=r'^&%s$' % meta, used_as=(r'RestoreManager::verify_backup_archive$', 1))
     # clear: the boolean read from the environment
     util.bind_role(_body(prog, 'RestoreManager::clear_data_directory'), 'env_confirm', type_rx=r'^bool$', origin_rx=r'env::var\(', full=True)
     # verify: the checksum recomputed from the archive
@@ -246,7 +248,9 @@ def run(ctx, prog):
         # no variable for it: the value tested in place
         eo = ([r_ for r_ in (flow.render(flow.Origin(cd).of_local(c.dest['l'])) for c in cd.calls if c.callee and c.is_('re:Result.*::unwrap_or$') and c.dest and not c.dest.get('p'))
                if 'env::var(' in r_] + [''])[0]
-    ctx.inst('C12.R2', cd.short, 'env confirmation = BACKUP_ALLOW_CLEAR equals "true"', '"BACKUP_ALLOW_CLEAR"' in eo and 'unwrap_or' in eo,
+    # the same value written as a match: false on Err, on Ok the comparison in place — phi(0 | eq(to_lowercase(var(..)@Ok), "true"))
+    as_match = bool(re.match(r'^phi\(0 \| <[^|]*PartialEq<[^|]*>>::eq\(str::to_lowercase\(env::var\("BACKUP_ALLOW_CLEAR"\)@Ok→Ok\.0\), "true"\)\)$', eo))
+    ctx.inst('C12.R2', cd.short, 'env confirmation = BACKUP_ALLOW_CLEAR equals "true"', '"BACKUP_ALLOW_CLEAR"' in eo and ('unwrap_or' in eo or as_match),
              'env_confirm = %s' % eo[:200])
     cl = [b for b in prog.family(cd) if b.kind == 'Closure']
     lit = False
@@ -264,7 +268,8 @@ def run(ctx, prog):
                     pv = flow.promoted_value(b.promoted[a['promoted']]) if a['promoted'] < len(b.promoted) else None
                     if pv and '"true"' in flow.render(pv):
                         lit = True
-    ctx.inst('C12.R2', cd.short, 'compares the lower-cased value with "true"', lit and any(b.calls_to('re:to_lowercase$') for b in cl), 'closure compares with the literal "true": %s' % lit)
+    ctx.inst('C12.R2', cd.short, 'compares the lower-cased value with "true"', (lit and any(b.calls_to('re:to_lowercase$') for b in cl)) or as_match,
+             'closure compares with the literal "true": %s%s' % (lit, '; compared in place' if as_match else ''))
     sites = {}
     for c in prog.callers_of('std::fs::remove_file', 'std::fs::remove_dir_all', 'std::fs::remove_dir'):
         if c.loc.startswith('engine/src/backup.rs') or 'kyrodb_backup' in c.body.id:
@@ -602,35 +607,43 @@ def run(ctx, prog):
         nx = pit.var_local('next')
         nxo = flow.render(po.of_local(nx[0])) if len(nx) == 1 else ''
         fnd = [c for c in pit.calls if c.callee and re.search(r'Iterator>?::find$', c.callee)]
-        if not nx and len(fnd) == 1 and fnd[0].dest and not fnd[0].dest.get('p'):
-            nxo = flow.render(po.of_local(fnd[0].dest['l']))   # the search result is matched on directly, without a variable for the candidate
-        first_match = len(fnd) == 1 and nxo.startswith("<iter::Iter<'a, T> as iterator::Iterator>::find(slice::iter(RestoreManager::list_backups(arg:self)@Continue→Continue.0), closure:")
+        # the search of a hop is the one inside the walk's loop (the base may be chosen by a search of its own, before the loop)
+        hop = [c for c in fnd if c.bb in pit.reach(pit.succ(c.bb))] if len(fnd) > 1 else fnd
+        if not nx and len(hop) == 1 and hop[0].dest and not hop[0].dest.get('p'):
+            nxo = flow.render(po.of_local(hop[0].dest['l']))   # the search result is matched on directly, without a variable for the candidate
+        first_match = len(hop) == 1 and nxo.startswith("<iter::Iter<'a, T> as iterator::Iterator>::find(slice::iter(RestoreManager::list_backups(arg:self)@Continue→Continue.0), closure:")
         ctx.inst('C12.R7', pit.short, 'each hop is the first match (find) over the newest-first list', first_match, 'next = %s' % nxo[:130])
-        if fnd and fnd[0].gc:
-            fcl = prog.bodies.get(fnd[0].gc[0])
-            # (the closure sees the walk's position under the source name of that variable: looked up by capture position, see cap_of)
-            ccur = 'cap:' + re.escape(cap_of(prog, fcl, roles.get(('pit', 'current_id')), 'current_id'))
-            atoms = [pathsens.Atom('parent', r'^eq\[arg:\w+→BackupMetadata\.parent_id, option::Option::Some\{%s\}\]$' % ccur),
-                     pathsens.Atom('intime', r'^cmp\[\+ arg:\w+→BackupMetadata\.timestamp - cap:timestamp <= 0\]$')]
+        def conjunction_with_type(fcl, atoms, variant):
+            """decision table of a `|b| t1 && t2 .. && b.backup_type == <variant>` predicate: (number of paths, what is wrong, atoms recognised)"""
             f_blocks = set(i_ for i_, blk in enumerate(fcl.blocks) for st in blk['s'] if st.get('rv') and st['pl']['l'] == 0 and st['rv']['k'] == 'use' and st['rv']['a'].get('k') == 'c' and st['rv']['a'].get('int') == 0)
             t_blocks = set(i_ for i_, blk in enumerate(fcl.blocks) for st in blk['s'] if st.get('rv') and st['pl']['l'] == 0 and st['rv']['k'] == 'use' and st['rv']['a'].get('k') == 'c' and st['rv']['a'].get('int') == 1)
             fv = flow.Origin(fcl, stop_at_vars=True)
             i_blocks = set(i_ for i_, blk in enumerate(fcl.blocks) if blk['t']['k'] == 'call' and blk['t']['dest']['l'] == 0 and fcl.call_at(i_).callee and fcl.call_at(i_).callee.endswith('PartialEq>::eq') and
                            len(fcl.call_at(i_).args) == 2 and re.match(r'^arg:\w+→BackupMetadata\.backup_type$', flow.render(fv.of_operand(fcl.call_at(i_).args[0]))) and
-                           flow.render(fv.of_operand(fcl.call_at(i_).args[1])) == 'backup::BackupType::Incremental{}')
-            terms, seen = _explore(fcl, atoms, mark_blocks={'F': f_blocks, 'T': t_blocks, 'ISINC': i_blocks})
+                           flow.render(fv.of_operand(fcl.call_at(i_).args[1])) == 'backup::BackupType::%s{}' % variant)
+            terms, seen = _explore(fcl, atoms, mark_blocks={'F': f_blocks, 'T': t_blocks, 'ISTYPE': i_blocks})
+            names = [a.name for a in atoms]
             bad = []
             for bb_, via, a_, path_ in terms:
-                ans = [k_ for k_ in ('F', 'T', 'ISINC') if a_.get(k_)]
+                ans = [k_ for k_ in ('F', 'T', 'ISTYPE') if a_.get(k_)]
                 if len(ans) != 1:
                     bad.append('answer %s' % ans)
-                elif ans[0] == 'ISINC' and not (a_.get('parent') is True and a_.get('intime') is True):
-                    bad.append('type test reached without parent = current ∧ timestamp ≤ target')
+                elif ans[0] == 'ISTYPE' and not all(a_.get(n_) is True for n_ in names):
+                    bad.append('type test reached without %s' % ' ∧ '.join(names))
                 elif ans[0] == 'T':
                     bad.append('accepts without the type test')
-                elif ans[0] == 'F' and not (a_.get('parent') is False or a_.get('intime') is False):
-                    bad.append('rejects although parent = current ∧ timestamp ≤ target')
-            ctx.inst('C12.R7', pit.short, 'hop predicate = parent is current ∧ timestamp ≤ target ∧ Incremental', bool(terms) and not bad and 'parent' in seen and 'intime' in seen, '%d paths; %s' % (len(terms), '; '.join(sorted(set(bad))) or 'exact'))
+                elif ans[0] == 'F' and not any(a_.get(n_) is False for n_ in names):
+                    bad.append('rejects although %s' % ' ∧ '.join(names))
+            return len(terms), bad, seen
+        intime = r'^cmp\[\+ arg:\w+→BackupMetadata\.timestamp - cap:timestamp <= 0\]$'
+        if hop and hop[0].gc:
+            fcl = prog.bodies.get(hop[0].gc[0])
+            # (the closure sees the walk's position under the source name of that variable: looked up by capture position, see cap_of)
+            ccur = 'cap:' + re.escape(cap_of(prog, fcl, roles.get(('pit', 'current_id')), 'current_id'))
+            n_, bad, seen = conjunction_with_type(fcl, [pathsens.Atom('parent = current', r'^eq\[arg:\w+→BackupMetadata\.parent_id, option::Option::Some\{%s\}\]$' % ccur),
+                                                        pathsens.Atom('timestamp ≤ target', intime)], 'Incremental')
+            ctx.inst('C12.R7', pit.short, 'hop predicate = parent is current ∧ timestamp ≤ target ∧ Incremental', bool(n_) and not bad and 'parent = current' in seen and 'timestamp ≤ target' in seen,
+                     '%d paths; %s' % (n_, '; '.join(sorted(set(bad))) or 'exact'))
         ci = pit.var_local('current_id')
         cio = flow.render(po.of_local(ci[0])) if len(ci) == 1 else ''
         ctx.inst('C12.R7', pit.short, 'the walk moves to the found backup (current_id := found.id, starting from the base)', 'find(' in cio and '@Some→Some.0→BackupMetadata.id' in cio and 'BackupMetadata.id' in cio.split('|')[-1], 'current_id = %s' % cio[:60])
@@ -654,9 +667,20 @@ def run(ctx, prog):
         r1 = pit.reach([0], avoid_edges=base_full)
         heads = [c for c in pit.calls if c.callee and c.is_('re:Iterator>::next$') and sets and pit.dominates(c.bb, sets[0]) and 'list_backups(arg:self)' in flow.render(po.of_operand(c.args[0]))]
         brk = bool(sets) and bool(heads) and all(h.bb not in pit.reach([sets[0]]) for h in heads)   # after taking a base the scan does not continue (break)
-        ctx.inst('C12.R7', pit.short, 'base = first Full with timestamp ≤ target in list order',
-                 bool(re.search(r"Iterator>::next\(RestoreManager::list_backups\(arg:self\)", fbo)) and bool(base_ts) and bool(base_full) and bool(sets) and all(x not in r0 and x not in r1 for x in sets) and brk,
-                 'full_backup = %s' % fbo[:120])
+        ok_base = bool(re.search(r"Iterator>::next\(RestoreManager::list_backups\(arg:self\)", fbo)) and bool(base_ts) and bool(base_full) and bool(sets) and all(x not in r0 and x not in r1 for x in sets) and brk
+        # the same selection written as a search: base = list.iter().find(|b| b.timestamp <= target && b.backup_type == Full) — first match in list order by the
+        # definition of find; what remains to check is the list, that nothing else defines the base, and the predicate
+        bfind = [c for c in fnd if c not in hop and c.bb not in pit.reach(pit.succ(c.bb))]
+        if not ok_base and not sets and len(bfind) == 1 and bfind[0].gc:
+            bl = [roles['pit', 'base_ref']] if roles.get(('pit', 'base_ref')) is not None else pit.var_local('full_backup')
+            fbo = flow.render(po.of_local(bl[0])) if len(bl) == 1 else ''
+            bcl = prog.bodies.get(bfind[0].gc[0])
+            m_ = re.match(r"^<[^|]*Iterator>::find\(slice::iter\(RestoreManager::list_backups\(arg:self\)@Continue→Continue\.0\), closure:([^|{]*\{closure#\d+\})\{[^|]*\}\)@Continue→Continue\.0$", fbo)
+            if m_ and bcl is not None and bcl.id.endswith('::' + m_.group(1)):
+                n_, bad, seen = conjunction_with_type(bcl, [pathsens.Atom('timestamp ≤ target', intime)], 'Full')
+                ok_base = bool(n_) and not bad and 'timestamp ≤ target' in seen
+                fbo = '%s [%d paths; %s]' % (fbo[:90], n_, '; '.join(sorted(set(bad))) or 'exact')
+        ctx.inst('C12.R7', pit.short, 'base = first Full with timestamp ≤ target in list order', ok_base, 'full_backup = %s' % fbo[:160])
     # ------------------------------------------------------------------ R8 restore by id follows the requested backup's own ancestry
     ctx.rule('C12.R8', 'restore-by-id restores the requested backup\'s OWN chain: starting from the requested metadata, each further element is the backup named by the '
                        'previous element\'s parent_id (loop on parent_id = Some, decode of that file, push), the walk ends at a Full or refuses, the chain is reversed '
@@ -694,7 +718,8 @@ def run(ctx, prog):
         src = util.loop_source(rb, heads[0]) if heads else '?'
         rc = rb.var_local('restore_chain')
         rco = flow.render(ov8.of_local(rc[0])) if rc else '?'
-        ok_rev = bool(rev) and bool(ver) and all(r_.bb not in rb.reach([ver[0].bb]) for r_ in rev) and 'restore_chain' in src and chv in rco
+        ok_rev = bool(rev) and bool(ver) and all(r_.bb not in rb.reach([ver[0].bb]) for r_ in rev) and 'restore_chain' in src and \
+            (chv in rco or (chv.startswith('var:') and util.var_chain_reaches(rb, 'restore_chain', chv[4:])))   # directly, or through named bindings (`?` on a helper's result)
         ctx.inst('C12.R8', rb.short, 'the chain is reversed (Full first) and is what the verification loop runs over', ok_rev,
                  'reverse(%s): %d; verification loop over %s; restore_chain = %s' % (chv, len(rev), src[:60], rco[:90]))
         full_e = [(i_, tg) for i_, blk in enumerate(rb.blocks) if blk['t']['k'] == 'switch' and i_ in rb.live_blocks() for tg, p_ in flow.switch_edge_predicates(rb, i_, ov8)
